@@ -1,13 +1,1136 @@
-//! C15 — (not built yet)
-#![allow(unused_imports, unused_variables, dead_code)]
+//! C15 — well-formed sequences of writer calls parse back to exactly what was written.
+//!
+//! op `wcalls <indent_char> <indent_factor> <call>…`
+//!   calls: `os` write_object_start, `as` write_array_start, `s` write_start, `e` write_end,
+//!   `mm` start_mixed_mode, `u:<hex>` write_unquoted, `q:<hex>` write_quoted, `h:<hex>` write_header,
+//!   `op:<name>` write_operator, `b:0|1` write_bool, `i32:<n>` `u32:<n>` `i:<n>` (i64) `n:<n>` (u64),
+//!   `f32:<bits hex>:<text hex>` `f64:<bits hex>:<text hex>` write_f32 / write_f64 (the text is what
+//!   std's Display prints for the value: float Display is not modelled, the model writes the text),
+//!   `f32p:<bits>:<prec>:<text>` `f64p:<bits>:<prec>:<text>` write_f*_precision,
+//!   `d:<s|w|i>:<y>.<m>.<d>.<h>` write_date(PdsDateFormatter::new(RawDate{y,m,d,h}, DotShort|DotWide|Iso8601)),
+//!   `rgb:<r>.<g>.<b>[.<a>]` write_rgb, `bt:<token>` write_binary with the token in show.rs
+//!   `bin_tape_tok` format (F32/F64 with `:<text hex>` appended).
+//!   result: `<output hex> <obs>… st:<mode>/<depth stack>/<state>/<nlt>/<mixed>` where `<obs>` after every
+//!   call is `<depth>/<expecting_key><at_array_value><at_unknown_start>` or `err:stackempty`, and `st:` is
+//!   the full machine state read from the writer's `Debug` output.
+//!
+//! L3 oracles (implementation only): see `oracle_wcalls`.
 use crate::common::*;
+use crate::docgen::{self, Doc, DocCfg, Field, Leaf, Node, Op};
+use crate::show;
+use jomini::binary::Rgb;
+use jomini::common::{DateFormat, PdsDateFormatter, RawDate};
+use jomini::text::Operator;
+use jomini::{BinaryToken, Scalar, TextTape, TextToken, TextWriter, TextWriterBuilder, Utf8Encoding, Windows1252Encoding};
 
-pub fn gen(g: &mut Gen) {}
+// ---------------------------------------------------------------------------------------
+// call tokens
 
-pub fn exec(w: &[&str], obs: &mut Obs) -> Option<String> {
-    None
+#[derive(Clone, Debug, PartialEq)]
+pub enum BinT {
+    Array(usize),
+    Object(usize),
+    Mixed,
+    Equal,
+    End(usize),
+    Bool(bool),
+    U32(u32),
+    U64(u64),
+    I64(i64),
+    I32(i32),
+    Quoted(Vec<u8>),
+    Unquoted(Vec<u8>),
+    F32([u8; 4]),
+    F64([u8; 8]),
+    Token(u16),
+    Rgb(u32, u32, u32, Option<u32>),
 }
 
+#[derive(Clone, Debug, PartialEq)]
+pub enum Call {
+    Start,
+    ObjectStart,
+    ArrayStart,
+    End,
+    Mixed,
+    Unquoted(Vec<u8>),
+    Quoted(Vec<u8>),
+    Header(Vec<u8>),
+    Operator(Op),
+    Bool(bool),
+    I32(i32),
+    U32(u32),
+    I64(i64),
+    U64(u64),
+    F32(u32),
+    F64(u64),
+    F32P(u32, usize),
+    F64P(u64, usize),
+    /// format (s = DotShort, w = DotWide, i = Iso8601), year, month, day, hour (0 = none)
+    Date(char, i16, u8, u8, u8),
+    Rgb(u32, u32, u32, Option<u32>),
+    Binary(BinT),
+}
+
+fn rgb_str(r: u32, g: u32, b: u32, a: Option<u32>) -> String {
+    match a {
+        Some(a) => format!("{}.{}.{}.{}", r, g, b, a),
+        None => format!("{}.{}.{}", r, g, b),
+    }
+}
+
+fn f32_text(bits: u32) -> String { format!("{}", f32::from_bits(bits)) }
+fn f64_text(bits: u64) -> String { format!("{}", f64::from_bits(bits)) }
+fn f32p_text(bits: u32, p: usize) -> String { format!("{0:.1$}", f32::from_bits(bits), p) }
+fn f64p_text(bits: u64, p: usize) -> String { format!("{0:.1$}", f64::from_bits(bits), p) }
+
+pub fn call_token(c: &Call) -> String {
+    match c {
+        Call::Start => "s".into(),
+        Call::ObjectStart => "os".into(),
+        Call::ArrayStart => "as".into(),
+        Call::End => "e".into(),
+        Call::Mixed => "mm".into(),
+        Call::Unquoted(b) => format!("u:{}", hex(b)),
+        Call::Quoted(b) => format!("q:{}", hex(b)),
+        Call::Header(b) => format!("h:{}", hex(b)),
+        Call::Operator(o) => format!("op:{}", o.name()),
+        Call::Bool(b) => format!("b:{}", *b as u8),
+        Call::I32(v) => format!("i32:{}", v),
+        Call::U32(v) => format!("u32:{}", v),
+        Call::I64(v) => format!("i:{}", v),
+        Call::U64(v) => format!("n:{}", v),
+        Call::F32(bits) => format!("f32:{:08x}:{}", bits, hex(f32_text(*bits).as_bytes())),
+        Call::F64(bits) => format!("f64:{:016x}:{}", bits, hex(f64_text(*bits).as_bytes())),
+        Call::F32P(bits, p) => format!("f32p:{:08x}:{}:{}", bits, p, hex(f32p_text(*bits, *p).as_bytes())),
+        Call::F64P(bits, p) => format!("f64p:{:016x}:{}:{}", bits, p, hex(f64p_text(*bits, *p).as_bytes())),
+        Call::Date(f, y, m, d, h) => format!("d:{}:{}.{}.{}.{}", f, y, m, d, h),
+        Call::Rgb(r, g, b, a) => format!("rgb:{}", rgb_str(*r, *g, *b, *a)),
+        Call::Binary(t) => format!("bt:{}", bint_token(t)),
+    }
+}
+
+fn bint_token(t: &BinT) -> String {
+    match t {
+        BinT::Array(e) => format!("A{}", e),
+        BinT::Object(e) => format!("O{}", e),
+        BinT::Mixed => "M".into(),
+        BinT::Equal => "Eq".into(),
+        BinT::End(e) => format!("E{}", e),
+        BinT::Bool(b) => format!("B:{}", *b as u8),
+        BinT::U32(v) => format!("U32:{}", v),
+        BinT::U64(v) => format!("U64:{}", v),
+        BinT::I64(v) => format!("I64:{}", v),
+        BinT::I32(v) => format!("I32:{}", v),
+        BinT::Quoted(b) => format!("Q:{}", hex(b)),
+        BinT::Unquoted(b) => format!("U:{}", hex(b)),
+        BinT::F32(b) => format!("F32:{}:{}", hex(b), hex(f32_text(u32::from_le_bytes(*b)).as_bytes())),
+        BinT::F64(b) => format!("F64:{}:{}", hex(b), hex(f64_text(u64::from_le_bytes(*b)).as_bytes())),
+        BinT::Token(id) => format!("T:{}", id),
+        BinT::Rgb(r, g, b, a) => format!("Rgb:{}", rgb_str(*r, *g, *b, *a)),
+    }
+}
+
+fn parse_rgb(s: &str) -> Option<(u32, u32, u32, Option<u32>)> {
+    let p: Vec<&str> = s.split('.').collect();
+    match p.as_slice() {
+        [r, g, b] => Some((r.parse().ok()?, g.parse().ok()?, b.parse().ok()?, None)),
+        [r, g, b, a] => Some((r.parse().ok()?, g.parse().ok()?, b.parse().ok()?, Some(a.parse().ok()?))),
+        _ => None,
+    }
+}
+
+fn parse_op(s: &str) -> Option<Op> {
+    Op::ALL.iter().copied().find(|o| o.name() == s)
+}
+
+fn parse_bint(s: &str) -> Option<BinT> {
+    if s == "M" { return Some(BinT::Mixed); }
+    if s == "Eq" { return Some(BinT::Equal); }
+    if let Some((head, rest)) = s.split_once(':') {
+        return match head {
+            "B" => Some(BinT::Bool(match rest { "0" => false, "1" => true, _ => return None })),
+            "U32" => Some(BinT::U32(rest.parse().ok()?)),
+            "U64" => Some(BinT::U64(rest.parse().ok()?)),
+            "I64" => Some(BinT::I64(rest.parse().ok()?)),
+            "I32" => Some(BinT::I32(rest.parse().ok()?)),
+            "Q" => Some(BinT::Quoted(unhex(rest)?)),
+            "U" => Some(BinT::Unquoted(unhex(rest)?)),
+            "F32" => {
+                let (b, t) = rest.split_once(':')?;
+                let b: [u8; 4] = unhex(b)?.try_into().ok()?;
+                if unhex(t)? != f32_text(u32::from_le_bytes(b)).as_bytes() { return None; }
+                Some(BinT::F32(b))
+            }
+            "F64" => {
+                let (b, t) = rest.split_once(':')?;
+                let b: [u8; 8] = unhex(b)?.try_into().ok()?;
+                if unhex(t)? != f64_text(u64::from_le_bytes(b)).as_bytes() { return None; }
+                Some(BinT::F64(b))
+            }
+            "T" => Some(BinT::Token(rest.parse().ok()?)),
+            "Rgb" => { let (r, g, b, a) = parse_rgb(rest)?; Some(BinT::Rgb(r, g, b, a)) }
+            _ => None,
+        };
+    }
+    let (head, num) = s.split_at(1);
+    let n: usize = num.parse().ok()?;
+    match head { "A" => Some(BinT::Array(n)), "O" => Some(BinT::Object(n)), "E" => Some(BinT::End(n)), _ => None }
+}
+
+pub fn parse_call(s: &str) -> Option<Call> {
+    match s {
+        "s" => return Some(Call::Start),
+        "os" => return Some(Call::ObjectStart),
+        "as" => return Some(Call::ArrayStart),
+        "e" => return Some(Call::End),
+        "mm" => return Some(Call::Mixed),
+        _ => {}
+    }
+    let (head, rest) = s.split_once(':')?;
+    match head {
+        "u" => Some(Call::Unquoted(unhex(rest)?)),
+        "q" => Some(Call::Quoted(unhex(rest)?)),
+        "h" => Some(Call::Header(unhex(rest)?)),
+        "op" => Some(Call::Operator(parse_op(rest)?)),
+        "b" => Some(Call::Bool(match rest { "0" => false, "1" => true, _ => return None })),
+        "i32" => Some(Call::I32(rest.parse().ok()?)),
+        "u32" => Some(Call::U32(rest.parse().ok()?)),
+        "i" => Some(Call::I64(rest.parse().ok()?)),
+        "n" => Some(Call::U64(rest.parse().ok()?)),
+        "f32" => {
+            let (b, t) = rest.split_once(':')?;
+            let bits = u32::from_str_radix(b, 16).ok()?;
+            if unhex(t)? != f32_text(bits).as_bytes() { return None; }
+            Some(Call::F32(bits))
+        }
+        "f64" => {
+            let (b, t) = rest.split_once(':')?;
+            let bits = u64::from_str_radix(b, 16).ok()?;
+            if unhex(t)? != f64_text(bits).as_bytes() { return None; }
+            Some(Call::F64(bits))
+        }
+        "f32p" => {
+            let p: Vec<&str> = rest.split(':').collect();
+            if p.len() != 3 { return None; }
+            let bits = u32::from_str_radix(p[0], 16).ok()?;
+            let prec: usize = p[1].parse().ok()?;
+            if prec > 64 || unhex(p[2])? != f32p_text(bits, prec).as_bytes() { return None; }
+            Some(Call::F32P(bits, prec))
+        }
+        "f64p" => {
+            let p: Vec<&str> = rest.split(':').collect();
+            if p.len() != 3 { return None; }
+            let bits = u64::from_str_radix(p[0], 16).ok()?;
+            let prec: usize = p[1].parse().ok()?;
+            if prec > 64 || unhex(p[2])? != f64p_text(bits, prec).as_bytes() { return None; }
+            Some(Call::F64P(bits, prec))
+        }
+        "d" => {
+            let (f, ymdh) = rest.split_once(':')?;
+            let f = match f { "s" => 's', "w" => 'w', "i" => 'i', _ => return None };
+            let p: Vec<&str> = ymdh.split('.').collect();
+            if p.len() != 4 { return None; }
+            let c = Call::Date(f, p[0].parse().ok()?, p[1].parse().ok()?, p[2].parse().ok()?, p[3].parse().ok()?);
+            if let Call::Date(_, y, m, d, h) = c { RawDate::from_ymdh_opt(y, m, d, h)?; }
+            Some(c)
+        }
+        "rgb" => { let (r, g, b, a) = parse_rgb(rest)?; Some(Call::Rgb(r, g, b, a)) }
+        "bt" => Some(Call::Binary(parse_bint(rest)?)),
+        _ => None,
+    }
+}
+
+pub fn to_operator(o: Op) -> Operator {
+    match o {
+        Op::Eq => Operator::Equal, Op::Lt => Operator::LessThan, Op::Le => Operator::LessThanEqual, Op::Gt => Operator::GreaterThan,
+        Op::Ge => Operator::GreaterThanEqual, Op::Ne => Operator::NotEqual, Op::Exact => Operator::Exact, Op::Exists => Operator::Exists,
+    }
+}
+
+// ---------------------------------------------------------------------------------------
+// running the real writer
+
+fn apply(w: &mut TextWriter<Vec<u8>>, c: &Call) -> Result<(), jomini::Error> {
+    match c {
+        Call::Start => w.write_start(),
+        Call::ObjectStart => w.write_object_start(),
+        Call::ArrayStart => w.write_array_start(),
+        Call::End => w.write_end(),
+        Call::Mixed => { w.start_mixed_mode(); Ok(()) }
+        Call::Unquoted(b) => w.write_unquoted(b),
+        Call::Quoted(b) => w.write_quoted(b),
+        Call::Header(b) => w.write_header(b),
+        Call::Operator(o) => w.write_operator(to_operator(*o)),
+        Call::Bool(b) => w.write_bool(*b),
+        Call::I32(v) => w.write_i32(*v),
+        Call::U32(v) => w.write_u32(*v),
+        Call::I64(v) => w.write_i64(*v),
+        Call::U64(v) => w.write_u64(*v),
+        Call::F32(bits) => w.write_f32(f32::from_bits(*bits)),
+        Call::F64(bits) => w.write_f64(f64::from_bits(*bits)),
+        Call::F32P(bits, p) => w.write_f32_precision(f32::from_bits(*bits), *p),
+        Call::F64P(bits, p) => w.write_f64_precision(f64::from_bits(*bits), *p),
+        Call::Date(f, y, m, d, h) => {
+            let raw = RawDate::from_ymdh(*y, *m, *d, *h);
+            let fmt = match f { 's' => DateFormat::DotShort, 'w' => DateFormat::DotWide, _ => DateFormat::Iso8601 };
+            w.write_date(PdsDateFormatter::new(raw, fmt))
+        }
+        Call::Rgb(r, g, b, a) => w.write_rgb(&Rgb { r: *r, g: *g, b: *b, a: *a }),
+        Call::Binary(t) => match t {
+            BinT::Array(e) => w.write_binary(&BinaryToken::Array(*e)),
+            BinT::Object(e) => w.write_binary(&BinaryToken::Object(*e)),
+            BinT::Mixed => w.write_binary(&BinaryToken::MixedContainer),
+            BinT::Equal => w.write_binary(&BinaryToken::Equal),
+            BinT::End(e) => w.write_binary(&BinaryToken::End(*e)),
+            BinT::Bool(b) => w.write_binary(&BinaryToken::Bool(*b)),
+            BinT::U32(v) => w.write_binary(&BinaryToken::U32(*v)),
+            BinT::U64(v) => w.write_binary(&BinaryToken::U64(*v)),
+            BinT::I64(v) => w.write_binary(&BinaryToken::I64(*v)),
+            BinT::I32(v) => w.write_binary(&BinaryToken::I32(*v)),
+            BinT::Quoted(b) => w.write_binary(&BinaryToken::Quoted(Scalar::new(b))),
+            BinT::Unquoted(b) => w.write_binary(&BinaryToken::Unquoted(Scalar::new(b))),
+            BinT::F32(b) => w.write_binary(&BinaryToken::F32(*b)),
+            BinT::F64(b) => w.write_binary(&BinaryToken::F64(*b)),
+            BinT::Token(id) => w.write_binary(&BinaryToken::Token(*id)),
+            BinT::Rgb(r, g, b, a) => w.write_binary(&BinaryToken::Rgb(Rgb { r: *r, g: *g, b: *b, a: *a })),
+        },
+    }
+}
+
+pub const STATE_NAMES: [&str; 9] = ["Error", "Key", "ObjectValue", "KeyValueSeparator", "ArrayValue", "ArrayValueFirst", "FirstKey", "FirstUnknown", "SecondUnknown"];
+
+/// the private machine fields, read from the derived `Debug` output
+/// (mode, depth stack bottom→top, state, needs_line_terminator, mixed_mode)
+fn debug_fields(w: &TextWriter<Vec<u8>>) -> Option<(String, Vec<String>, String, String, String)> {
+    let d = format!("{:?}", w);
+    let after = |from: usize, key: &str| -> Option<usize> { d[from..].find(key).map(|p| from + p + key.len()) };
+    let upto = |from: usize, ends: &[char]| -> String { d[from..].chars().take_while(|c| !ends.contains(c)).collect() };
+    let p_mode = after(0, ", mode: ")?;
+    let mode = upto(p_mode, &[',']);
+    let p_depth = after(p_mode, ", depth: [")?;
+    let depth_txt = upto(p_depth, &[']']);
+    let depth: Vec<String> = depth_txt.split(',').map(|x| x.trim().to_string()).filter(|x| !x.is_empty()).collect();
+    let p_state = after(p_depth, ", state: ")?;
+    let state = upto(p_state, &[',']);
+    let p_nlt = after(p_state, ", needs_line_terminator: ")?;
+    let nlt = upto(p_nlt, &[',']);
+    let p_mixed = after(p_nlt, ", mixed_mode: ")?;
+    let mixed = upto(p_mixed, &[' ', '}', ',']);
+    Some((mode, depth, state, nlt, mixed))
+}
+
+fn st_string(w: &TextWriter<Vec<u8>>) -> String {
+    match debug_fields(w) {
+        None => "st:?".to_string(),
+        Some((mode, depth, state, nlt, mixed)) => {
+            let l = |m: &str| if m == "Object" { 'O' } else if m == "Array" { 'A' } else { '?' };
+            let stack: String = if depth.is_empty() { "-".to_string() } else { depth.iter().map(|m| l(m)).collect() };
+            format!("st:{}/{}/{}/{}/{}", l(&mode), stack, state, if nlt == "true" { 1 } else { 0 }, mixed)
+        }
+    }
+}
+
+#[derive(Clone, Copy, Debug, PartialEq)]
+pub struct ObsRow { pub depth: usize, pub key: bool, pub arr: bool, pub unk: bool }
+
+pub struct RunResult { pub out: Vec<u8>, pub rows: Vec<Result<ObsRow, String>>, pub st: String }
+
+pub fn run_real(indent_char: u8, indent_factor: u8, calls: &[Call]) -> RunResult {
+    let mut w = TextWriterBuilder::new().indent_char(indent_char).indent_factor(indent_factor).from_writer(Vec::new());
+    let mut rows = Vec::with_capacity(calls.len());
+    for c in calls {
+        match apply(&mut w, c) {
+            Ok(()) => rows.push(Ok(ObsRow { depth: w.depth(), key: w.expecting_key(), arr: w.at_array_value(), unk: w.at_unknown_start() })),
+            Err(e) => rows.push(Err(match e.kind() {
+                jomini::ErrorKind::StackEmpty { .. } => "err:stackempty".to_string(),
+                jomini::ErrorKind::Io(_) => "err:io".to_string(),
+                _ => "err:other".to_string(),
+            })),
+        }
+    }
+    let st = st_string(&w);
+    RunResult { out: w.into_inner(), rows, st }
+}
+
+pub fn exec(w: &[&str], obs: &mut Obs) -> Option<String> {
+    match w {
+        ["wcalls", c, f, rest @ ..] => {
+            let ic: u8 = c.parse().ok()?;
+            let fac: u8 = f.parse().ok()?;
+            let calls: Vec<Call> = rest.iter().map(|t| parse_call(t)).collect::<Option<Vec<_>>>()?;
+            let r = run_real(ic, fac, &calls);
+            let case = w.join(" ");
+            oracle_wcalls(ic, fac, &calls, &r, &case, obs);
+            let mut s = hex(&r.out);
+            for row in &r.rows {
+                s.push(' ');
+                match row {
+                    Ok(o) => s.push_str(&format!("{}/{}{}{}", o.depth, o.key as u8, o.arr as u8, o.unk as u8)),
+                    Err(e) => s.push_str(e),
+                }
+            }
+            s.push(' ');
+            s.push_str(&r.st);
+            Some(s)
+        }
+        _ => None,
+    }
+}
+
+// ---------------------------------------------------------------------------------------
+// L3 oracles
+
+/// Tiny independent reference for depth()/expecting_key()/at_array_value()/at_unknown_start():
+/// a re-statement of the documented behaviour on the call *history* only (no output, no indent,
+/// no payloads).  Frames remember whether the container they interrupt was in "object" or
+/// "list" reading; `ph` is what the writer is waiting for.
+#[derive(Clone, Copy, PartialEq, Debug)]
+enum Ph { Key, Sep, Val, Elem, Elem0, Key0, Unk0, Unk1 }
+
+struct RefM { stack: Vec<bool>, is_obj: bool, ph: Ph, mixed: u8 }
+
+impl RefM {
+    fn new() -> Self { RefM { stack: vec![], is_obj: true, ph: Ph::Key, mixed: 0 } }
+    fn value(&mut self) {
+        self.ph = match self.ph { Ph::Key | Ph::Key0 => Ph::Sep, Ph::Sep | Ph::Val => Ph::Key, Ph::Elem | Ph::Elem0 | Ph::Unk1 => Ph::Elem, Ph::Unk0 => Ph::Unk1 };
+    }
+    fn open(&mut self, is_obj: bool, ph: Ph) { self.stack.push(self.is_obj); self.is_obj = is_obj; self.ph = ph; }
+    fn close(&mut self) -> bool {
+        match self.stack.pop() {
+            Some(o) => { self.is_obj = o; self.ph = if o { Ph::Key } else { Ph::Elem }; self.mixed = 0; true }
+            None => false,
+        }
+    }
+    fn operator(&mut self) { if self.mixed == 0 { self.is_obj = true; self.ph = Ph::Val; } else { self.mixed = 2; } }
+    fn header(&mut self) { self.ph = Ph::Val; }
+    fn mixed(&mut self) { self.is_obj = false; self.mixed = 1; }
+    fn rgb(&mut self) { self.header(); self.open(false, Ph::Elem0); self.close(); }
+    /// returns false when the call returns an error
+    fn call(&mut self, c: &Call) -> bool {
+        match c {
+            Call::Start => self.open(false, Ph::Unk0),
+            Call::ObjectStart => self.open(true, Ph::Key0),
+            Call::ArrayStart => self.open(false, Ph::Elem0),
+            Call::End => return self.close(),
+            Call::Mixed => self.mixed(),
+            Call::Operator(_) => self.operator(),
+            Call::Header(_) => self.header(),
+            Call::Rgb(..) => self.rgb(),
+            Call::Binary(t) => match t {
+                BinT::Array(_) => self.open(false, Ph::Elem0),
+                BinT::Object(_) => self.open(true, Ph::Key0),
+                BinT::Mixed => self.mixed(),
+                BinT::Equal => self.operator(),
+                BinT::End(_) => return self.close(),
+                BinT::Rgb(..) => self.rgb(),
+                _ => self.value(),
+            },
+            _ => self.value(),
+        }
+        true
+    }
+    fn row(&self) -> ObsRow {
+        ObsRow { depth: self.stack.len(), key: matches!(self.ph, Ph::Key | Ph::Key0), arr: self.ph == Ph::Elem, unk: self.ph == Ph::Unk0 }
+    }
+}
+
+/// bytes the text format treats as scalar boundaries (data.rs character class table) plus
+/// the bytes that change the token kind at the start of a scalar
+fn valid_unquoted(b: &[u8]) -> bool {
+    !b.is_empty()
+        && b.iter().all(|c| !matches!(c, b'\t' | b'\n' | 0x0b | 0x0c | b'\r' | b' ' | b'!' | b'#' | b'<' | b'=' | b'>' | b'[' | b']' | b'{' | b'}' | b'"' | b';' | b'@' | b'\\' | b'?'))
+}
+
+/// independent statement of what `write_quoted` must put between the quotes
+fn ref_escape(p: &[u8]) -> Vec<u8> {
+    let p = if p.last() == Some(&b'\n') { &p[..p.len() - 1] } else { p };
+    let mut v = Vec::with_capacity(p.len() + 2);
+    for &c in p {
+        if c == b'\\' || c == b'"' { v.push(b'\\'); }
+        v.push(c);
+    }
+    v
+}
+
+#[derive(Clone, Debug, PartialEq)]
+enum Src { None, Int(i64), Uint(u64), F32(u32), F64(u64), Quoted(Vec<u8>) }
+
+/// a call reduced to what it denotes in the document
+#[derive(Clone, Debug, PartialEq)]
+enum Norm {
+    S, Os, As, E, Mm,
+    Op(Op),
+    Header(Vec<u8>),
+    Rgb(u32, u32, u32, Option<u32>),
+    /// expected on-disk bytes, quoted?, source value for the read-back checks
+    Scalar(Vec<u8>, bool, Src),
+}
+
+fn date_text(f: char, y: i16, m: u8, d: u8, h: u8) -> String {
+    match f {
+        's' => if h != 0 { format!("{}.{}.{}.{}", y, m, d, h) } else { format!("{}.{}.{}", y, m, d) },
+        'w' => if h != 0 { format!("{}.{:02}.{:02}.{:02}", y, m, d, h) } else { format!("{}.{:02}.{:02}", y, m, d) },
+        _ => if h != 0 { format!("{:04}-{:02}-{:02}T{:02}", y, m, d, h - 1) } else { format!("{:04}-{:02}-{:02}", y, m, d) },
+    }
+}
+
+fn normalize(c: &Call) -> Norm {
+    let plain = |s: String, src: Src| Norm::Scalar(s.into_bytes(), false, src);
+    match c {
+        Call::Start => Norm::S,
+        Call::ObjectStart => Norm::Os,
+        Call::ArrayStart => Norm::As,
+        Call::End => Norm::E,
+        Call::Mixed => Norm::Mm,
+        Call::Unquoted(b) => Norm::Scalar(b.clone(), false, Src::None),
+        Call::Quoted(b) => Norm::Scalar(ref_escape(b), true, Src::Quoted(b.clone())),
+        Call::Header(b) => Norm::Header(b.clone()),
+        Call::Operator(o) => Norm::Op(*o),
+        Call::Bool(b) => plain((if *b { "yes" } else { "no" }).to_string(), Src::None),
+        Call::I32(v) => plain(v.to_string(), Src::Int(*v as i64)),
+        Call::U32(v) => plain(v.to_string(), Src::Uint(*v as u64)),
+        Call::I64(v) => plain(v.to_string(), Src::Int(*v)),
+        Call::U64(v) => plain(v.to_string(), Src::Uint(*v)),
+        Call::F32(bits) => plain(f32_text(*bits), Src::F32(*bits)),
+        Call::F64(bits) => plain(f64_text(*bits), Src::F64(*bits)),
+        Call::F32P(bits, p) => plain(f32p_text(*bits, *p), Src::None),
+        Call::F64P(bits, p) => plain(f64p_text(*bits, *p), Src::None),
+        Call::Date(f, y, m, d, h) => plain(date_text(*f, *y, *m, *d, *h), Src::None),
+        Call::Rgb(r, g, b, a) => Norm::Rgb(*r, *g, *b, *a),
+        Call::Binary(t) => match t {
+            BinT::Array(_) => Norm::As,
+            BinT::Object(_) => Norm::Os,
+            BinT::Mixed => Norm::Mm,
+            BinT::Equal => Norm::Op(Op::Eq),
+            BinT::End(_) => Norm::E,
+            BinT::Bool(b) => plain((if *b { "yes" } else { "no" }).to_string(), Src::None),
+            BinT::U32(v) => plain(v.to_string(), Src::Uint(*v as u64)),
+            BinT::U64(v) => plain(v.to_string(), Src::Uint(*v)),
+            BinT::I64(v) => plain(v.to_string(), Src::Int(*v)),
+            BinT::I32(v) => plain(v.to_string(), Src::Int(*v as i64)),
+            BinT::Quoted(b) => Norm::Scalar(ref_escape(b), true, Src::Quoted(b.clone())),
+            BinT::Unquoted(b) => Norm::Scalar(b.clone(), false, Src::None),
+            BinT::F32(b) => plain(f32_text(u32::from_le_bytes(*b)), Src::F32(u32::from_le_bytes(*b))),
+            BinT::F64(b) => plain(f64_text(u64::from_le_bytes(*b)), Src::F64(u64::from_le_bytes(*b))),
+            BinT::Token(id) => plain(format!("__unknown_0x{:x}", id), Src::None),
+            BinT::Rgb(r, g, b, a) => Norm::Rgb(*r, *g, *b, *a),
+        },
+    }
+}
+
+/// Recursive-descent recogniser of the call lists that *describe a document*, producing the
+/// tape that document must parse to (show.rs `text_tape` token strings), the source value
+/// of every scalar token, and the observations a caller must see after every call.
+struct Wf<'a> {
+    calls: &'a [Norm],
+    pos: usize,
+    toks: Vec<String>,
+    src: Vec<Src>,
+    rows: Vec<ObsRow>,
+    depth: usize,
+    why: &'static str,
+}
+
+#[derive(Clone, Copy, PartialEq)]
+enum After { Key, Elem, None, Unk }
+
+impl<'a> Wf<'a> {
+    fn peek(&self) -> Option<&'a Norm> { self.calls.get(self.pos) }
+    fn peek2(&self) -> Option<&'a Norm> { self.calls.get(self.pos + 1) }
+    fn take(&mut self, after: After) {
+        self.pos += 1;
+        self.rows.push(ObsRow { depth: self.depth, key: after == After::Key, arr: after == After::Elem, unk: after == After::Unk });
+    }
+    fn fail<T>(&mut self, why: &'static str) -> Option<T> { if self.why.is_empty() { self.why = why; } None }
+    fn push_scalar(&mut self, b: &[u8], quoted: bool, src: &Src) -> Option<()> {
+        if !quoted && !valid_unquoted(b) { return self.fail("unquoted-not-a-scalar"); }
+        self.toks.push(format!("{}:{}", if quoted { "Q" } else { "U" }, hex(b)));
+        self.src.push(src.clone());
+        Some(())
+    }
+    fn push_tok(&mut self, s: String) { self.toks.push(s); self.src.push(Src::None); }
+
+    /// fields of the root or of an object; `first_after`: what is observable after the first key
+    /// (an `as`-opened container that turns into an object reports at_array_value there).
+    fn fields(&mut self, nested: bool, mut first_key_after: After, mut need_explicit_first_op: bool) -> Option<usize> {
+        let mut n = 0;
+        while let Some(Norm::Scalar(b, q, src)) = self.peek() {
+            self.push_scalar(b, *q, src)?;
+            self.take(first_key_after);
+            first_key_after = After::None;
+            let mut op = Op::Eq;
+            let mut explicit = false;
+            if let Some(Norm::Op(o)) = self.peek() {
+                op = *o; explicit = true;
+                self.take(After::None);
+            }
+            if need_explicit_first_op && !explicit { return self.fail("unknown-container-first-key-without-operator"); }
+            need_explicit_first_op = false;
+            let _ = nested;
+            if op != Op::Eq { self.push_tok(format!("Op:{}", op.name())); }
+            self.value(true, After::Key)?;
+            n += 1;
+        }
+        Some(n)
+    }
+
+    /// one value; `in_object`: value of a field (afterwards a key is expected) or array element
+    fn value(&mut self, in_object: bool, scalar_after: After) -> Option<()> {
+        let after = if in_object { After::Key } else { After::Elem };
+        match self.peek() {
+            Some(Norm::Scalar(b, q, src)) => { self.push_scalar(b, *q, src)?; self.take(scalar_after); Some(()) }
+            Some(Norm::Rgb(r, g, b, a)) => {
+                if !in_object { return self.fail("header-in-array"); }
+                self.push_tok(format!("H:{}", hex(b"rgb")));
+                let start = self.toks.len();
+                self.push_tok(String::new());
+                for c in [Some(*r), Some(*g), Some(*b), *a].iter().flatten() { self.push_tok(format!("U:{}", hex(c.to_string().as_bytes()))); }
+                let end = self.toks.len();
+                self.push_tok(format!("E{}", start));
+                self.toks[start] = format!("A{}", end);
+                self.take(after);
+                Some(())
+            }
+            Some(Norm::Header(h)) => {
+                if !in_object { return self.fail("header-in-array"); }
+                if !valid_unquoted(h) { return self.fail("header-not-a-scalar"); }
+                self.push_tok(format!("H:{}", hex(h)));
+                self.take(After::None);
+                let before = self.toks.len();
+                self.container(after)?;
+                if self.toks.len() == before + 2 { return self.fail("header-with-empty-body(ghost)"); }
+                Some(())
+            }
+            Some(Norm::S) | Some(Norm::Os) | Some(Norm::As) => self.container(after),
+            _ => self.fail("value-expected"),
+        }
+    }
+
+    fn container(&mut self, after: After) -> Option<()> {
+        let flavour = self.peek()?.clone();
+        let start = self.toks.len();
+        self.push_tok(String::new());
+        self.depth += 1;
+        let is_obj;
+        match flavour {
+            Norm::Os => {
+                self.take(After::Key);
+                let n = self.fields(true, After::None, false)?;
+                is_obj = n > 0;
+            }
+            Norm::As | Norm::S => {
+                let unknown = flavour == Norm::S;
+                self.take(if unknown { After::Unk } else { After::None });
+                // a scalar directly followed by an operator turns the container into an object
+                if matches!(self.peek(), Some(Norm::Scalar(..))) && matches!(self.peek2(), Some(Norm::Op(_))) {
+                    self.fields(true, if unknown { After::None } else { After::Elem }, true)?;
+                    is_obj = true;
+                } else {
+                    let mut n = 0;
+                    while !matches!(self.peek(), Some(Norm::E) | None) {
+                        if matches!(self.peek(), Some(Norm::Op(_)) | Some(Norm::Mm)) { return self.fail("operator-in-array"); }
+                        let before = self.toks.len();
+                        // the first scalar of a `write_start` container leaves the kind still unknown
+                        self.value(false, if unknown && n == 0 { After::None } else { After::Elem })?;
+                        if n == 0 && self.toks.len() == before + 2 && self.toks[before].starts_with('A') && self.toks[before + 1].starts_with('E') {
+                            return self.fail("array-first-element-empty-container(ghost)");
+                        }
+                        n += 1;
+                    }
+                    is_obj = false;
+                }
+            }
+            _ => return self.fail("container-expected"),
+        }
+        match self.peek() {
+            Some(Norm::E) => {}
+            _ => return self.fail("unbalanced"),
+        }
+        self.depth -= 1;
+        self.take(after);
+        let end = self.toks.len();
+        self.push_tok(format!("E{}", start));
+        self.toks[start] = format!("{}{}", if is_obj { "O" } else { "A" }, end);
+        Some(())
+    }
+}
+
+struct WfResult { tape: String, src: Vec<Src>, rows: Vec<ObsRow> }
+
+fn well_formed(calls: &[Call]) -> Result<WfResult, &'static str> {
+    let norm: Vec<Norm> = calls.iter().map(normalize).collect();
+    let mut p = Wf { calls: &norm, pos: 0, toks: vec![], src: vec![], rows: vec![], depth: 0, why: "" };
+    let ok = p.fields(false, After::None, false).is_some();
+    if !ok { return Err(p.why); }
+    if p.pos != norm.len() { return Err(if p.why.is_empty() { "key-expected" } else { p.why }); }
+    Ok(WfResult { tape: if p.toks.is_empty() { "-".to_string() } else { p.toks.join(",") }, src: p.src, rows: p.rows })
+}
+
+fn f64_ulps(a: f64, b: f64) -> u64 {
+    let key = |v: f64| { let x = v.to_bits() as i64; if x < 0 { i64::MIN.wrapping_sub(x) } else { x } };
+    (key(a) as i128 - key(b) as i128).unsigned_abs() as u64
+}
+fn f32_ulps(a: f32, b: f32) -> u64 {
+    let key = |v: f32| { let x = v.to_bits() as i32; if x < 0 { i32::MIN.wrapping_sub(x) } else { x } };
+    (key(a) as i64 - key(b) as i64).unsigned_abs()
+}
+
+/// is the decimal text within what `to_f64` documents to read (all digits fit a u64, at most 22
+/// fraction digits, integers below 2^53)?
+fn moderate_float_text(t: &str) -> bool {
+    let body = t.strip_prefix('-').unwrap_or(t);
+    if body.is_empty() || !body.bytes().all(|c| c.is_ascii_digit() || c == b'.') { return false; }
+    let digits: String = body.chars().filter(|c| *c != '.').collect();
+    let frac = body.find('.').map(|p| body.len() - p - 1).unwrap_or(0);
+    let Ok(v) = digits.parse::<u64>() else { return false };
+    if frac == 0 { v < (1u64 << 53) } else { frac <= 22 && v <= i64::MAX as u64 }
+}
+
+fn ref_trim_ascii_end(b: &[u8]) -> &[u8] {
+    let mut e = b.len();
+    while e > 0 && matches!(b[e - 1], b' ' | b'\t' | b'\n' | 0x0c | b'\r') { e -= 1; }
+    &b[..e]
+}
+
+fn oracle_wcalls(ic: u8, fac: u8, calls: &[Call], r: &RunResult, case: &str, obs: &mut Obs) {
+    // (a) depth()/expecting_key()/… reflect the history, for every call list
+    let mut m = RefM::new();
+    for (i, c) in calls.iter().enumerate() {
+        let ok = m.call(c);
+        match (&r.rows[i], ok) {
+            (Ok(row), true) => {
+                if *row != m.row() {
+                    obs.violation("state-not-reflecting-calls", case, &format!("after call {} impl {:?} reference {:?}", i, row, m.row()));
+                    return;
+                }
+            }
+            (Err(e), false) if e == "err:stackempty" => {}
+            (a, b) => {
+                obs.violation("call-result", case, &format!("call {} impl {:?} reference ok={}", i, a, b));
+                return;
+            }
+        }
+    }
+    // unmatched starts, counted directly
+    let mut d: usize = 0;
+    for c in calls {
+        match c {
+            Call::Start | Call::ObjectStart | Call::ArrayStart | Call::Binary(BinT::Array(_)) | Call::Binary(BinT::Object(_)) => d += 1,
+            Call::End | Call::Binary(BinT::End(_)) => d = d.saturating_sub(1),
+            _ => {}
+        }
+    }
+    let last_depth = r.st.split('/').nth(1).map(|s| if s == "-" { 0 } else { s.len() });
+    if last_depth != Some(d) {
+        obs.violation("depth-not-unmatched-starts", case, &format!("impl {:?} expected {}", last_depth, d));
+    }
+    // (b) a well-formed call list parses back to exactly the described structure
+    let wf = match well_formed(calls) {
+        Ok(w) => w,
+        Err(why) => { obs.count(&format!("not-wf:{}", why)); return; }
+    };
+    obs.count("wf");
+    for (i, row) in wf.rows.iter().enumerate() {
+        if r.rows[i] != Ok(*row) {
+            obs.violation("wf-state", case, &format!("after call {} impl {:?} document says {:?}", i, r.rows[i], row));
+            return;
+        }
+    }
+    let tape = match TextTape::from_slice(&r.out) {
+        Ok(t) => t,
+        Err(e) => { obs.violation("wf-output-does-not-parse", case, &format!("{} {:?}", hex(&r.out), e)); return; }
+    };
+    let got = show::text_tape(tape.tokens());
+    if got != wf.tape {
+        obs.violation("wf-parse-back", case, &format!("output {} parsed {} described {}", hex(&r.out), got, wf.tape));
+        return;
+    }
+    // (c) value read-back
+    for (t, src) in tape.tokens().iter().zip(wf.src.iter()) {
+        match (t, src) {
+            (TextToken::Unquoted(s), Src::Int(v)) => {
+                obs.count("readback:int");
+                if s.to_i64() != Ok(*v) { obs.violation("int-readback", case, &format!("{} -> {:?}", v, s.to_i64())); }
+            }
+            (TextToken::Unquoted(s), Src::Uint(v)) => {
+                obs.count("readback:uint");
+                if s.to_u64() != Ok(*v) { obs.violation("uint-readback", case, &format!("{} -> {:?}", v, s.to_u64())); }
+            }
+            (TextToken::Unquoted(s), Src::F64(bits)) => {
+                let x = f64::from_bits(*bits);
+                let txt = String::from_utf8_lossy(s.as_bytes()).to_string();
+                if x.is_finite() && moderate_float_text(&txt) {
+                    obs.count("readback:f64");
+                    match s.to_f64() {
+                        Ok(y) if f64_ulps(x, y) <= 2 => {}
+                        other => obs.violation("f64-readback", case, &format!("{:e} text {} -> {:?}", x, txt, other)),
+                    }
+                } else { obs.count("readback:f64-immoderate"); }
+            }
+            (TextToken::Unquoted(s), Src::F32(bits)) => {
+                let x = f32::from_bits(*bits);
+                let txt = String::from_utf8_lossy(s.as_bytes()).to_string();
+                if x.is_finite() && moderate_float_text(&txt) {
+                    obs.count("readback:f32");
+                    match s.to_f64() {
+                        Ok(y) if f32_ulps(x, y as f32) <= 2 => {}
+                        other => obs.violation("f32-readback", case, &format!("{:e} text {} -> {:?}", x, txt, other)),
+                    }
+                } else { obs.count("readback:f32-immoderate"); }
+            }
+            (TextToken::Quoted(s), Src::Quoted(p)) => {
+                obs.count("readback:quoted");
+                // the decoders delete every backslash and trim trailing ASCII white space (documented):
+                // the payload must come back modulo exactly that
+                let w1 = Windows1252Encoding::decode(s.as_bytes());
+                let w2 = Windows1252Encoding::decode(p);
+                let u1 = Utf8Encoding::decode(s.as_bytes());
+                let u2 = Utf8Encoding::decode(p);
+                if w1 != w2 || u1 != u2 {
+                    obs.violation("quoted-readback", case, &format!("payload {} on disk {} decodes {:?} / {:?}", hex(p), hex(s.as_bytes()), w1, w2));
+                }
+                if p.is_ascii() {
+                    let want: Vec<u8> = ref_trim_ascii_end(p).iter().copied().filter(|c| *c != b'\\').collect();
+                    if u1.as_bytes() != &want[..] {
+                        obs.violation("quoted-readback-ascii", case, &format!("payload {} decodes {:?}", hex(p), u1));
+                    }
+                }
+                // undoing the escapes byte-wise gives the payload minus one trailing newline
+                let mut un = Vec::new();
+                let b = s.as_bytes();
+                let mut i = 0;
+                while i < b.len() { if b[i] == b'\\' && i + 1 < b.len() { i += 1; } un.push(b[i]); i += 1; }
+                let want = if p.last() == Some(&b'\n') { &p[..p.len() - 1] } else { &p[..] };
+                if un != want { obs.violation("quoted-unescape", case, &format!("payload {} on disk {}", hex(p), hex(b))); }
+            }
+            _ => {}
+        }
+    }
+    let _ = (ic, fac);
+}
+
+// ---------------------------------------------------------------------------------------
+// generators
+
+pub struct Flavour { pub bt_pct: usize, pub explicit_eq_pct: usize }
+
+fn payload(rng: &mut Rng) -> Vec<u8> {
+    let n = rng.size(24);
+    let mut v: Vec<u8> = (0..n)
+        .map(|_| match rng.below(10) {
+            0 => b'\\', 1 => b'"', 2 => b'\n', 3 => rng.below(256) as u8, 4 => b' ',
+            5 => *rng.pick(b"{}=#<>![]@;\t\r"), _ => b'a' + rng.below(26) as u8,
+        })
+        .collect();
+    // emphasis on the ends
+    if rng.chance(1, 2) { let k = rng.below(3); for _ in 0..k { v.push(*rng.pick(b"\\\"\n\n\\ ")); } }
+    if rng.chance(1, 4) { let k = rng.below(3); for _ in 0..k { v.insert(0, *rng.pick(b"\\\"\n")); } }
+    v
+}
+
+fn scalar_call(rng: &mut Rng, l: &Leaf, fl: &Flavour) -> Call {
+    let bt = rng.below(100) < fl.bt_pct;
+    match l {
+        Leaf::Unq(b) => {
+            let b: Vec<u8> = b.iter().map(|c| if matches!(c, b'@' | b'[' | b']' | b'?') { b'x' } else { *c }).collect();
+            if bt { Call::Binary(BinT::Unquoted(b)) } else { Call::Unquoted(b) }
+        }
+        Leaf::Quo(b) => {
+            let p = if rng.chance(1, 2) { payload(rng) } else { b.clone() };
+            if bt { Call::Binary(BinT::Quoted(p)) } else { Call::Quoted(p) }
+        }
+        Leaf::Int(i) => {
+            if let Ok(v) = i32::try_from(*i) {
+                if rng.chance(1, 2) { return if bt { Call::Binary(BinT::I32(v)) } else { Call::I32(v) }; }
+            }
+            if bt { Call::Binary(BinT::I64(*i)) } else { Call::I64(*i) }
+        }
+        Leaf::Uint(u) => {
+            if let Ok(v) = u32::try_from(*u) {
+                if rng.chance(1, 2) { return if bt { Call::Binary(BinT::U32(v)) } else { Call::U32(v) }; }
+            }
+            if bt { Call::Binary(BinT::U64(*u)) } else { Call::U64(*u) }
+        }
+        Leaf::Bool(b) => if bt { Call::Binary(BinT::Bool(*b)) } else { Call::Bool(*b) },
+        Leaf::Fixed(t) => {
+            match rng.below(4) {
+                0 => { let x = *t as f32 / 1000.0; if bt { Call::Binary(BinT::F32(x.to_le_bytes())) } else { Call::F32(x.to_bits()) } }
+                1 => { let x = *t as f64 / 1000.0; if bt { Call::Binary(BinT::F64(x.to_le_bytes())) } else { Call::F64(x.to_bits()) } }
+                2 => Call::F32P((*t as f32 / 1000.0).to_bits(), rng.below(7)),
+                _ => Call::F64P((*t as f64 / 1000.0).to_bits(), rng.below(7)),
+            }
+        }
+        Leaf::Date(y, m, d, h) => Call::Date(*rng.pick(&['s', 's', 'w', 'i']), *y, *m, *d, h.unwrap_or(if rng.chance(1, 4) { 1 + rng.below(24) as u8 } else { 0 })),
+    }
+}
+
+fn start_call(rng: &mut Rng, flavour: u8, fl: &Flavour) -> Call {
+    let bt = rng.below(100) < fl.bt_pct;
+    match flavour {
+        0 => if bt { Call::Binary(BinT::Object(rng.below(50))) } else { Call::ObjectStart },
+        1 => if bt { Call::Binary(BinT::Array(rng.below(50))) } else { Call::ArrayStart },
+        _ => Call::Start,
+    }
+}
+fn end_call(rng: &mut Rng, fl: &Flavour) -> Call {
+    if rng.below(100) < fl.bt_pct { Call::Binary(BinT::End(rng.below(50))) } else { Call::End }
+}
+
+fn field_calls(rng: &mut Rng, f: &Field, nested_first: bool, force_explicit: bool, fl: &Flavour, out: &mut Vec<Call>) {
+    out.push(scalar_call(rng, &f.key, fl));
+    let op = f.op;
+    let _ = nested_first;
+    if op != Op::Eq { out.push(Call::Operator(op)); }
+    else if force_explicit || rng.below(100) < fl.explicit_eq_pct {
+        out.push(if rng.below(100) < fl.bt_pct { Call::Binary(BinT::Equal) } else { Call::Operator(Op::Eq) });
+    }
+    node_calls(rng, &f.val, true, fl, out);
+}
+
+fn node_calls(rng: &mut Rng, n: &Node, in_object: bool, fl: &Flavour, out: &mut Vec<Call>) {
+    match n {
+        Node::Leaf(l) => out.push(scalar_call(rng, l, fl)),
+        Node::Obj(fs) => {
+            let flavour = *rng.pick(&[0u8, 0, 0, 1, 2, 2]);
+            out.push(start_call(rng, flavour, fl));
+            for (i, f) in fs.iter().enumerate() { field_calls(rng, f, i == 0, i == 0 && flavour != 0, fl, out); }
+            out.push(end_call(rng, fl));
+        }
+        Node::Arr(vs) => {
+            let flavour = *rng.pick(&[1u8, 1, 1, 2, 2, 0]);
+            let flavour = if flavour == 0 && !vs.is_empty() { 1 } else { flavour };
+            out.push(start_call(rng, flavour, fl));
+            for v in vs { node_calls(rng, v, false, fl, out); }
+            out.push(end_call(rng, fl));
+        }
+        Node::Header(h, body) => {
+            out.push(Call::Header(h.clone()));
+            node_calls(rng, body, in_object, fl, out);
+        }
+        Node::Rgb(r, g, b, a) => out.push(if rng.below(100) < fl.bt_pct { Call::Binary(BinT::Rgb(*r, *g, *b, *a)) } else { Call::Rgb(*r, *g, *b, *a) }),
+        Node::Mixed(fs, rest) => {
+            out.push(Call::ArrayStart);
+            for f in fs { field_calls(rng, f, false, true, fl, out); }
+            for v in rest { node_calls(rng, v, false, fl, out); }
+            out.push(Call::End);
+        }
+    }
+}
+
+pub fn doc_calls(rng: &mut Rng, doc: &Doc, fl: &Flavour) -> Vec<Call> {
+    let mut out = vec![];
+    for f in &doc.fields { field_calls(rng, f, false, false, fl, &mut out); }
+    out
+}
+
+fn emit(g: &mut Gen, ic: u8, fac: u8, calls: &[Call]) {
+    let mut s = format!("wcalls {} {}", ic, fac);
+    for c in calls { s.push(' '); s.push_str(&call_token(c)); }
+    g.emit(s);
+}
+
+fn indent_cfg(rng: &mut Rng) -> (u8, u8) {
+    (if rng.chance(1, 2) { b' ' } else { b'\t' }, rng.below(10) as u8)
+}
+
+fn random_call(rng: &mut Rng) -> Call {
+    match rng.below(26) {
+        0 | 1 => Call::Start,
+        2 | 3 => Call::ObjectStart,
+        4 | 5 => Call::ArrayStart,
+        6..=9 => Call::End,
+        10 => Call::Mixed,
+        11..=13 => Call::Unquoted(rng.pick(&[&b"a"[..], b"b1", b"-5", b"x.y", b"", b"a b", b"{", b"="]).to_vec()),
+        14 | 15 => Call::Quoted(payload(rng)),
+        16 => Call::Header(rng.pick(&[&b"rgb"[..], b"hsv", b"LIST", b""]).to_vec()),
+        17 | 18 => Call::Operator(*rng.pick(&Op::ALL)),
+        19 => Call::Bool(rng.chance(1, 2)),
+        20 => Call::I64(if rng.chance(1, 8) { *rng.pick(&[i64::MIN, i64::MAX, i64::MIN + 1, 0, -1]) } else { rng.next() as i64 >> rng.below(64) }),
+        21 => Call::U64(rng.next() >> rng.below(64)),
+        22 => Call::Rgb(rng.below(256) as u32, rng.below(256) as u32, rng.next() as u32, if rng.chance(1, 3) { Some(rng.below(256) as u32) } else { None }),
+        23 => Call::Date(*rng.pick(&['s', 'w', 'i']), (rng.next() as i16) >> rng.below(16), 1 + rng.below(12) as u8, 1 + rng.below(31) as u8, rng.below(25) as u8),
+        24 => Call::F64(f64::to_bits((rng.next() % 2_000_001) as f64 / 1000.0 - 1000.0)),
+        _ => Call::Binary(match rng.below(16) {
+            0 => BinT::Array(rng.below(9)), 1 => BinT::Object(rng.below(9)), 2 => BinT::Mixed, 3 => BinT::Equal, 4 => BinT::End(rng.below(9)),
+            5 => BinT::Bool(rng.chance(1, 2)), 6 => BinT::U32(rng.next() as u32), 7 => BinT::U64(rng.next()), 8 => BinT::I64(rng.next() as i64 | 1),
+            9 => BinT::I32(rng.next() as i32), 10 => BinT::Quoted(payload(rng)), 11 => BinT::Unquoted(b"tok".to_vec()),
+            12 => BinT::F32(((rng.next() % 200_001) as f32 / 100.0 - 1000.0).to_le_bytes()), 13 => BinT::F64(((rng.next() % 200_001) as f64 / 64.0).to_le_bytes()),
+            14 => BinT::Token(rng.next() as u16), _ => BinT::Rgb(1, 2, 3, None),
+        }),
+    }
+}
+
+pub fn gen_c15(g: &mut Gen) {
+    // 0. fixed cases: the writer's own doc examples and the boundary integers
+    for ints in [
+        vec![Call::Unquoted(b"a".to_vec()), Call::I64(i64::MAX), Call::Unquoted(b"b".to_vec()), Call::I64(i64::MIN + 1), Call::Unquoted(b"m".to_vec()), Call::I64(i64::MIN), Call::Unquoted(b"m2".to_vec()), Call::Binary(BinT::I64(i64::MIN)), Call::Unquoted(b"c".to_vec()), Call::U64(u64::MAX)],
+        vec![Call::Unquoted(b"a".to_vec()), Call::I32(i32::MIN), Call::Unquoted(b"b".to_vec()), Call::I32(i32::MAX), Call::Unquoted(b"c".to_vec()), Call::U32(u32::MAX), Call::U64(0), Call::I64(0)],
+        vec![Call::Binary(BinT::Token(0)), Call::Binary(BinT::Token(0xffff)), Call::Binary(BinT::Token(0x2d82)), Call::Binary(BinT::Token(0x10))],
+        vec![Call::Unquoted(b"d".to_vec()), Call::Date('i', -5, 1, 2, 0), Call::Unquoted(b"e".to_vec()), Call::Date('i', -1234, 11, 30, 24), Call::Unquoted(b"f".to_vec()), Call::Date('w', i16::MIN, 1, 1, 1), Call::Date('s', i16::MAX, 12, 31, 24), Call::Date('i', 12345, 9, 9, 1)],
+    ] {
+        emit(g, b' ', 2, &ints);
+    }
+    g.count("fixed");
+
+    // 1. every quoted payload over {\ " \n a space} up to length 4 (5: thorough), in value / key / array position
+    let alpha = b"\\\"\na ";
+    let maxlen = g.budget(4, 6);
+    let mut all: Vec<Vec<u8>> = vec![vec![]];
+    let mut frontier: Vec<Vec<u8>> = vec![vec![]];
+    for _ in 0..maxlen {
+        let mut next = vec![];
+        for p in &frontier { for &a in alpha { let mut q = p.clone(); q.push(a); next.push(q); } }
+        all.extend(next.iter().cloned());
+        frontier = next;
+    }
+    for p in &all {
+        emit(g, b' ', 2, &[Call::Unquoted(b"k".to_vec()), Call::Quoted(p.clone()), Call::Unquoted(b"z".to_vec()), Call::Unquoted(b"1".to_vec())]);
+        if p.len() <= 3 {
+            emit(g, b'\t', 1, &[Call::Quoted(p.clone()), Call::Unquoted(b"v".to_vec())]);
+            emit(g, b' ', 0, &[Call::Unquoted(b"k".to_vec()), Call::ArrayStart, Call::Quoted(p.clone()), Call::Binary(BinT::Quoted(p.clone())), Call::End]);
+        }
+    }
+    g.count("quoted-exhaustive");
+    // single bytes: every byte value alone and between specials
+    for b in 0..=255u8 {
+        emit(g, b' ', 2, &[Call::Unquoted(b"k".to_vec()), Call::Quoted(vec![b]), Call::Unquoted(b"k2".to_vec()), Call::Quoted(vec![b'\\', b, b'"', b, b'\n'])]);
+    }
+
+    // 2. every call list over a 10-call alphabet up to length 4 (5: thorough): the ill-formed stream
+    let alphabet = [Call::ObjectStart, Call::ArrayStart, Call::Start, Call::End, Call::Unquoted(b"a".to_vec()), Call::Quoted(b"b".to_vec()),
+                    Call::Operator(Op::Eq), Call::Operator(Op::Lt), Call::Header(b"h".to_vec()), Call::Mixed];
+    let maxlen = g.budget(4, 5);
+    fn rec(g: &mut Gen, alphabet: &[Call], cur: &mut Vec<Call>, maxlen: usize) {
+        emit(g, b' ', 1, cur);
+        if cur.len() == maxlen { return; }
+        for a in alphabet { cur.push(a.clone()); rec(g, alphabet, cur, maxlen); cur.pop(); }
+    }
+    rec(g, &alphabet, &mut vec![], maxlen);
+    g.count("calls-exhaustive");
+
+    // 3. documents from the shared model with every flavour choice
+    let n = g.budget(9_000, 150_000);
+    for i in 0..n {
+        let cfg = DocCfg { mixed: false, ghosts: false, variables: false, max_depth: 1 + g.rng.below(5), ..DocCfg::text_full() };
+        let doc = docgen::gen_doc(&mut g.rng, &cfg);
+        let fl = Flavour { bt_pct: *g.rng.pick(&[0, 0, 30, 100]), explicit_eq_pct: *g.rng.pick(&[0, 50, 100]) };
+        let mut calls = doc_calls(&mut g.rng, &doc, &fl);
+        // nesting past the 16 byte indent cache
+        if i % 5 == 0 {
+            let k = g.rng.range(1, 24);
+            let mut pre = vec![];
+            let mut post = vec![];
+            for _ in 0..k {
+                pre.push(Call::Unquoted(b"n".to_vec()));
+                match g.rng.below(3) {
+                    0 => pre.push(Call::ObjectStart),
+                    1 => { pre.push(Call::Operator(Op::Eq)); pre.push(Call::ObjectStart); }
+                    _ => pre.push(Call::Binary(BinT::Object(0))),
+                }
+                post.push(Call::End);
+            }
+            pre.extend(calls);
+            pre.extend(post);
+            calls = pre;
+        }
+        let (ic, fac) = indent_cfg(&mut g.rng);
+        emit(g, ic, fac, &calls);
+    }
+    g.count("documents");
+
+    // 4. arbitrary call lists (mostly ill-formed) and mutations of well-formed ones
+    let n = g.budget(6_000, 150_000);
+    for _ in 0..n {
+        let len = g.rng.size(14);
+        let calls: Vec<Call> = (0..len).map(|_| random_call(&mut g.rng)).collect();
+        let (ic, fac) = indent_cfg(&mut g.rng);
+        emit(g, ic, fac, &calls);
+    }
+    let n = g.budget(3_000, 60_000);
+    for _ in 0..n {
+        let cfg = DocCfg { mixed: true, max_depth: 3, ..DocCfg::text_full() };
+        let doc = docgen::gen_doc(&mut g.rng, &cfg);
+        let mut calls = doc_calls(&mut g.rng, &doc, &Flavour { bt_pct: 20, explicit_eq_pct: 30 });
+        let k = 1 + g.rng.below(3);
+        for _ in 0..k {
+            match g.rng.below(4) {
+                0 if !calls.is_empty() => { let p = g.rng.below(calls.len()); calls.remove(p); }
+                1 => { let p = g.rng.below(calls.len() + 1); let c = random_call(&mut g.rng); calls.insert(p, c); }
+                2 if !calls.is_empty() => { let p = g.rng.below(calls.len()); calls.truncate(p); }
+                _ if calls.len() > 1 => { let a = g.rng.below(calls.len()); let b = g.rng.below(calls.len()); calls.swap(a, b); }
+                _ => {}
+            }
+        }
+        let (ic, fac) = indent_cfg(&mut g.rng);
+        emit(g, ic, fac, &calls);
+    }
+    g.count("ill-formed");
+
+    // 5. floats
+    let n = g.budget(1_500, 40_000);
+    for _ in 0..n {
+        let mut calls = vec![];
+        for _ in 0..1 + g.rng.below(3) {
+            calls.push(Call::Unquoted(b"f".to_vec()));
+            let c = match g.rng.below(8) {
+                0 => Call::F32(((g.rng.next() % 2_000_001) as f32 / 1000.0 - 1000.0).to_bits()),
+                1 => Call::F32(f32::from_bits(g.rng.next() as u32).to_bits()),
+                2 => Call::F64(((g.rng.next() % 2_000_000_001) as f64 / 100000.0 - 10000.0).to_bits()),
+                3 => Call::F64(g.rng.next()),
+                4 => { let m = (g.rng.next() >> 11) as f64 / (1u64 << 53) as f64; Call::F64((m * 10f64.powi(g.rng.below(20) as i32 - 6)).to_bits()) }
+                5 => Call::F64P(((g.rng.next() % 2_000_001) as f64 / 1000.0).to_bits(), g.rng.below(12)),
+                6 => Call::F32P(((g.rng.next() % 2_000_001) as f32 / 1000.0).to_bits(), g.rng.below(12)),
+                _ => Call::F64(g.rng.pick(&[0.0f64, -0.0, 1.0, 0.1, 0.30000000000000004, 9007199254740991.0, 9007199254740992.0, 1e15, 1e-5, 123456.789, f64::MAX, f64::MIN_POSITIVE, f64::NAN, f64::INFINITY, f64::NEG_INFINITY]).to_bits()),
+            };
+            calls.push(c);
+        }
+        emit(g, b' ', 2, &calls);
+    }
+    g.count("floats");
+}
+
+pub fn gen(g: &mut Gen) { gen_c15(g) }
+
+// ---------------------------------------------------------------------------------------
+// measured table: WRITE_STATE_NEXT, through public calls only
+
 pub fn tables() -> String {
-    String::new()
+    let fresh = || TextWriterBuilder::new().from_writer(Vec::<u8>::new());
+    // how to reach every state from a fresh writer with public calls
+    let drivers: [(&str, fn(&mut TextWriter<Vec<u8>>)); 8] = [
+        ("Key", |_w| {}),
+        ("ObjectValue", |w| { w.write_unquoted(b"k").unwrap(); w.write_operator(Operator::Equal).unwrap(); }),
+        ("KeyValueSeparator", |w| { w.write_unquoted(b"k").unwrap(); }),
+        ("ArrayValue", |w| { w.write_unquoted(b"k").unwrap(); w.write_array_start().unwrap(); w.write_unquoted(b"v").unwrap(); }),
+        ("ArrayValueFirst", |w| { w.write_unquoted(b"k").unwrap(); w.write_array_start().unwrap(); }),
+        ("FirstKey", |w| { w.write_unquoted(b"k").unwrap(); w.write_object_start().unwrap(); }),
+        ("FirstUnknown", |w| { w.write_unquoted(b"k").unwrap(); w.write_start().unwrap(); }),
+        ("SecondUnknown", |w| { w.write_unquoted(b"k").unwrap(); w.write_start().unwrap(); w.write_unquoted(b"v").unwrap(); }),
+    ];
+    let idx = |name: &str| STATE_NAMES.iter().position(|n| *n == name);
+    let mut next: Vec<u64> = vec![0; 9];
+    let mut ok = true;
+    for (name, drive) in drivers.iter() {
+        let mut w = fresh();
+        drive(&mut w);
+        let here = debug_fields(&w).map(|f| f.2);
+        if here.as_deref() != Some(*name) { ok = false; continue; }
+        // the public observers must agree with the state name
+        let (k, a, u) = (w.expecting_key(), w.at_array_value(), w.at_unknown_start());
+        if k != matches!(*name, "Key" | "FirstKey") || a != (*name == "ArrayValue") || u != (*name == "FirstUnknown") { ok = false; }
+        w.write_unquoted(b"x").unwrap();
+        match debug_fields(&w).and_then(|f| idx(&f.2)) {
+            Some(j) => next[idx(name).unwrap()] = j as u64,
+            None => ok = false,
+        }
+    }
+    if !ok { next = vec![99; 9]; }
+    let mut s = crate::tables::emit_nat_table(
+        "writeStateNext",
+        "writer.rs WRITE_STATE_NEXT, measured: entry i = index of the state a value write leaves the writer in when started in state i (states numbered Error=0 Key=1 ObjectValue=2 KeyValueSeparator=3 ArrayValue=4 ArrayValueFirst=5 FirstKey=6 FirstUnknown=7 SecondUnknown=8; each state reached from a fresh TextWriter through public calls, successor read from the Debug output and cross-checked against expecting_key()/at_array_value()/at_unknown_start()). Entry 0 (Error) cannot be reached through the public API and is recorded as 0.",
+        &next,
+    );
+    s.push('\n');
+    s
 }
